@@ -5,6 +5,13 @@ A case is {"v": <tagged value>}; tagged values: null / true / false / "str" / {"
 {"o": [[key, value], ..]} (member order = dict insertion order).
 Observed: the returned text or the exception class; and what canonicalize
 gives for the stdlib-json parse of that text (fixed-point observation)."""
+import os as _os
+import sys as _sys
+
+if _os.environ.get("VERIF_NO_JSON_ACCEL"):
+    _sys.modules["_json"] = None      # the C accelerator of the json module is not importable: pure-Python encoders
+    _sys.setrecursionlimit(20000)     # the worker's own transport (pure-Python json.loads of tagged values) recurses deeply
+
 import json
 import sys
 
